@@ -6,16 +6,24 @@
    every subscriber's log are judged by the executable predicates of Model.v (shape_ok, fold_log), which
    Proofs.v shows to hold in every reachable state of the model. *)
 From Coq Require Import NArith List Bool Arith.
-From Verif.C13_Reactive Require Import Model.
+From Verif.C13_Reactive Require Import Model Api.
 Import ListNotations.
 
-Inductive vop := VSet (v : N) | VAddMod (k m : N) | VDefault (v : N).
-Definition vfun (o : vop) : N -> N :=
+(* the value-changing calls of a script; each is the Api.vcall it is in the code (Init, ToggleValue and its reset closure,
+   and the Set issued by an InheritFrom callback are writers like Set) *)
+Inductive vop := VSet (v : N) | VAddMod (k m : N) | VDefault (v : N)
+               | VInit (v : N) | VToggle (v : N) | VReset | VInh (v : N).
+Definition vcallN (o : vop) : vcall N :=
   match o with
-  | VSet v => fun _ => v
-  | VAddMod k m => fun x => N.modulo (x + k) m
-  | VDefault v => fun x => if N.eqb x 0 then v else x
+  | VSet v => CSet v
+  | VAddMod k m => CCompute (fun x => N.modulo (x + k) m)
+  | VDefault v => CDefaultTo v
+  | VInit v => CInit v
+  | VToggle v => CToggle v
+  | VReset => CReset
+  | VInh v => CInherited v
   end.
+Definition vfun (o : vop) : N -> N := vcall_fun N N.eqb 0%N (vcallN o).
 Inductive trk := TId | TMax.          (* TMax on {0,1} is the Event transformation (||) *)
 Definition trf (t : trk) : N -> N -> N := match t with TId => fun _ n => n | TMax => N.max end.
 
@@ -30,14 +38,49 @@ Inductive sopx := OApply (m : N * N) | OCompute (f : sfac) | OReplace (e : N).
 Definition sopf (o : sopx) : sop :=
   match o with OApply m => SApply m | OCompute f => SCompute (sfacf f) | OReplace e => SReplace e end.
 
-Definition map_op {A B} (f : A -> B) (o : op A) : op B :=
-  match o with Write w => Write (f w) | Subscribe c t => Subscribe c t | Unsub c => Unsub c end.
+(* ---- subscription variants: what the script's callbacks record, as (N * N) events ---- *)
+Inductive cnd := CAll | CNewGe (k : N) | CNewNz | CPrevNz.
+Definition cnd2 (c : cnd) (p n : N) : bool :=
+  match c with CAll => true | CNewGe k => N.leb k n | CNewNz => negb (N.eqb n 0) | CPrevNz => negb (N.eqb p 0) end.
+Definition cnd1 (c : cnd) (n : N) : bool := cnd2 c 0%N n.
+Inductive view :=
+| VwPlain                    (* OnUpdate / OnTrigger *)
+| VwOnce (c : option cnd)    (* OnUpdateOnce [condition] *)
+| VwCtx (c : cnd)            (* OnUpdateWithContext; withinContext(setup) when c(new) *)
+| VwWith (c : cnd)           (* WithValue (CAll: no condition) / WithNonEmptyValue (CNewNz) *)
+| VwLog.                     (* LogUpdates *)
+Definition enc (e : cev N) : N * N :=
+  match e with
+  | ECond p n | ECb p n => (p, n)
+  | EUser p n => (1000 + p, n)
+  | ESetup v => (2000, v)
+  | ETeardown v => (3000, v)
+  | ELogged v => (5000, v)
+  end%N.
+Definition observe (w : view) (l : list (N * N)) (fin : bool) : list (N * N) :=
+  match w with
+  | VwPlain => l
+  | VwOnce c => map enc (once_obs N (option_map cnd2 c) l)
+  | VwCtx c => map enc (ctx_obs N true (cnd1 c) None l fin)
+  | VwWith c => map enc (ctx_obs N false (cnd1 c) None l fin)
+  | VwLog => map enc (log_obs N l)
+  end.
+Inductive sview := SwPlain | SwWith (cm : N).     (* Set.OnUpdate / Set.WithElements with condition "element in cm" *)
+Definition sobserve (w : sview) (l : list (N * N)) (fin : bool) : list (N * N) :=
+  match w with
+  | SwPlain => l
+  | SwWith cm => map (fun e : bool * N => ((if fst e then 2000%N else 3000%N), snd e)) (norm_ev (wel_obs cm 0%N l fin))
+  end.
 
 Definition sub := (bool * bool * list (N * N))%type.      (* trigger-with-zero flag, complete (never unsubscribed), log *)
 
 Inductive case :=
 | VSeq (t : trk) (ops : list (op vop)) (ncb : nat) (logs : list (list (N * N))) (rets : list N) (final : N)
 | SSeq (s0 : N) (ops : list (op sopx)) (ncb : nat) (logs : list (list (N * N))) (rets : list (N * N)) (final : N)
+(* scripts over the whole exported API: [views] gives the subscription variant of each callback name, [obs] what its
+   user-visible callbacks recorded *)
+| VApi (t : trk) (ops : list (op vop)) (views : list view) (obs : list (list (N * N))) (rets : list N) (final : N)
+| SApi (s0 : N) (ops : list (op sopx)) (views : list sview) (obs : list (list (N * N))) (rets : list (N * N)) (final : N)
 | VFree (G : list (N * N)) (final : N) (subs : list sub)
 | SFree (s0 : N) (G : list (N * N)) (final : N) (subs : list sub).
 
@@ -64,6 +107,11 @@ Section Seq.
   Definition idle (s : st) : bool := match thr s 0 with Idle => true | _ => false end.
   Definition logs_of (s : st) (n : nat) : list (list D) :=
     map (fun c => match cbs s c with Some b => log b | None => [] end) (seq 0 n).
+  Definition obs_of {Vw O} (observe : Vw -> list D -> bool -> O) (dflt : O) (s : st) (views : list Vw) : list O :=
+    map (fun cw => match cbs s (fst cw) with
+                   | Some b => observe (snd cw) (log b) (unsubd b)
+                   | None => dflt
+                   end) (combine (seq 0 (length views)) views).
 End Seq.
 
 (* Variable: each change is (previous, new) with previous = the value before and new <> previous *)
@@ -101,6 +149,16 @@ Definition agree (c : case) : bool :=
                        (map (map_op sopf) ops) (init N (N * N) sop (N * N) s0) in
       idle _ _ _ _ s && leqb (leqb pair_eqb) (logs_of _ _ _ _ s ncb) logs
       && leqb pair_eqb (Model.rets s) rets && N.eqb (val s) final
+  | VApi t ops views obs rets final =>
+      let s := run_seq N (N * N) (N -> N) N (v_nonzero N N.eqb 0%N) (v_initD N 0%N) (v_wr N N.eqb (trf t))
+                       (v_wskip N) (map (map_op vfun) ops) (init N (N * N) (N -> N) N 0%N) in
+      idle _ _ _ _ s && leqb (leqb pair_eqb) (obs_of _ _ _ _ observe [] s views) obs
+      && leqb N.eqb (Model.rets s) rets && N.eqb (val s) final
+  | SApi s0 ops views obs rets final =>
+      let s := run_seq N (N * N) sop (N * N) s_nonzero s_initD s_wr s_wskip
+                       (map (map_op sopf) ops) (init N (N * N) sop (N * N) s0) in
+      idle _ _ _ _ s && leqb (leqb pair_eqb) (obs_of _ _ _ _ sobserve [] s views) obs
+      && leqb pair_eqb (Model.rets s) rets && N.eqb (val s) final
   | VFree G final subs =>
       v_chain 0%N G && N.eqb (fold_left (v_apply N) G 0%N) final
       && forallb (sub_ok v_shape (fold_log N (N * N) (v_apply N) 0%N) 0%N G final) subs
@@ -125,4 +183,26 @@ Proof. vm_compute. reflexivity. Qed.
 
 Example seq_set_d13_regression :   (* {1,2}.Replace({2,3}) must report added {3}, deleted {1} *)
   agree (SSeq 6%N [Subscribe 0 false; Write (OReplace 12%N)] 1 [[(6,0);(8,2)]]%N [(0,2)]%N 12%N) = true.
+Proof. vm_compute. reflexivity. Qed.
+
+(* Init on a live variable is a write like any other: the subscriber is told, the chain is unbroken *)
+Example api_init_on_live_variable :
+  agree (VApi TId [Write (VInit 1%N); Subscribe 0 false; Write (VSet 2%N); Write (VInit 7%N); Write (VSet 9%N); Write (VInit 11%N)]
+              [VwPlain] [[(0,1);(1,2);(2,7);(7,9);(9,11)]]%N [0;1;2;7;9]%N 11%N) = true.
+Proof. vm_compute. reflexivity. Qed.
+
+Example api_views_smoke :
+  agree (VApi TId [Subscribe 0 false; Subscribe 1 true; Subscribe 2 true; Write (VSet 2%N); Write (VToggle 3%N); Write VReset; Unsub 1]
+              [VwOnce (Some (CNewGe 3%N)); VwCtx CNewNz; VwWith CAll]
+              [[(0,2);(2,3);(1002,3)]; [(0,0);(0,2);(2000,2);(3000,2);(2,3);(2000,3);(3000,3);(3,0)];
+               [(2000,0);(3000,0);(2000,2);(3000,2);(2000,3);(3000,3);(2000,0)]]%N [0;2;3]%N 0%N) = true.
+Proof. vm_compute. reflexivity. Qed.
+
+Example api_withelements_smoke :   (* {0,1}; condition = elements {0,2}; add 2, delete 0, teardown *)
+  agree (SApi 3%N [Subscribe 0 false; Write (OApply (4, 0)%N); Write (OApply (0, 1)%N); Unsub 0]
+              [SwWith 5%N] [[(2000,5);(3000,1);(3000,4)]]%N [(4,0);(0,1)]%N 6%N) = false.
+Proof. vm_compute. reflexivity. Qed.
+Example api_withelements_smoke2 :   (* adjacent teardowns are merged: 3000,1 then 3000,4 = 3000,5 *)
+  agree (SApi 3%N [Subscribe 0 false; Write (OApply (4, 0)%N); Write (OApply (0, 1)%N); Unsub 0]
+              [SwWith 5%N] [[(2000,5);(3000,5)]]%N [(4,0);(0,1)]%N 6%N) = true.
 Proof. vm_compute. reflexivity. Qed.
